@@ -21,6 +21,8 @@ CATALOGUE = [
     ("opt_str", "OptStr", "OptionRegion<StringRegion>", "None or Some(shape-rotation string)"),
     ("res_str_u8", "ResStrU8", "ResultRegion<StringRegion, MirrorRegion<u8>>", "Ok(shape-rotation string) or Err(any u8)"),
     ("tup_str_u16", "TupStrU16", "TupleABRegion<StringRegion, MirrorRegion<u16>>", "(shape-rotation string, any u16)"),
+    ("res_own_own", "ResOwnOwn", "ResultRegion<OwnedRegion<u8>, OwnedRegion<u8>>", "Ok or Err (symbolic) of symbolic bytes, lengths 2,3,0,1 (rotation)"),
+    ("tup_own_own", "TupOwnOwn", "TupleABRegion<OwnedRegion<u8>, OwnedRegion<u8>>", "pair of symbolic byte strings, lengths 2,3,0,1 (rotation)"),
     ("slice_u8", "SliceU8", "SliceRegion<MirrorRegion<u8>>", "<=3 symbolic bytes; length symbolic in C01 round trips, else rotation 2,3,0,1"),
     ("slice_usize_opt", "SliceUsizeOpt", "SliceRegion<MirrorRegion<usize>, IndexOptimized> (the stored offsets are the pushed values)", "2 unconstrained usize values"),
     ("slice_str", "SliceStr", "SliceRegion<StringRegion>", "row of 2,1,0 short strings (rotation), symbolic contents"),
